@@ -75,6 +75,14 @@ PROPS = {
         level_text="Lean 4 theorems over a schedule-free denotation of readers (every sequence of request sizes incl. zero, every short-read behaviour): Take, Crc32Reader, the fixed ZipCrypto reader and any count-preserving per-byte stateful transform map denotations to denotations, composed into the Stored (plain / ZipCrypto) entry pipelines end-to-end and into the compressed ones modulo an explicit codec hypothesis; EOF is sticky; read_exact and write_all are schedule independent; ZipWriter::write accounts exactly the accepted bytes so data, CRC and size are independent of sink short writes and of the caller's splitting; the pre-fix ZipCrypto reader is refuted on a concrete 2-call schedule; tied by correspondence over scripted short-read readers / short-write sinks (function level through hooks, archive level through the public API) plus an implementation-only oracle against the unchunked run",
         level_note="layer bodies are hand-modelled and tied by differential testing; flate2/bzip2/zstd chunk independence is an explicit hypothesis (Codec.ChunkIndependent), validated only by the oracle; the AES reader is modelled elsewhere (generic statefulMapLayer theorem provided), AES entries are oracle-only here; u64 counters are modelled as Nat",
     ),
+    "C16": dict(
+        props=["ZipVerif.Props.C16"],
+        tie=["ZipVerif.Tie.Aes"],
+        streams=["aes"],
+        title="WinZip-AES entries decrypt correctly and tampering is detected",
+        level_text="Lean 4 theorems modulo the cryptographic primitives (PBKDF2-HMAC-SHA1, the AES block function and HMAC-SHA1 are uninterpreted parameters; only their output lengths are assumed): the little-endian CTR key stream is chunking independent, involutive and byte i is byte i%16 of AES_k(le128(i/16+1)); with the right password every caller-buffer and short-read schedule returns exactly ct xor key stream for every length; no password -> password-required, wrong verifier -> InvalidPassword, too-short entry -> InvalidData, early end of the inner stream -> UnexpectedEof; any successful end-of-file of the AES reader on a non-empty entry implies that HMAC(all ciphertext)[0..10] was compared with the stored code and matched and that exactly data_length bytes were consumed (no delivery hypothesis), the finalized assertion and every arithmetic panic are unreachable; CRC flag = (vendor version is AE-2). The model is tied to the source by the regenerated AesMode lengths / constants / method table (Tie obligations) and by correspondence of AesReaderValid::read, AesCtrZipKeyStream, the 0x9901 extra-field parse and the open-time decisions on entries built by the harness's own AE-x encryptor",
+        level_note="HMAC unforgeability, PBKDF2 and AES themselves are parameters (oracle tables in the correspondence); the entry-level tamper statement is partial for compressing inner methods: the authentication code is verified only if the decompressor pulls the last ciphertext byte (finding D12, reproduced on the real crate); empty entries never compare their code; translator and harness are trusted as stated in DESIGN.md section 7",
+    ),
 }
 
 ALLOWED_AXIOMS = {"propext", "Classical.choice", "Quot.sound"}
